@@ -17,7 +17,8 @@ from koala import graph_utils
 DRIVERS = ("c02",)
 MODEL_TARGETS = ["Model/Lattice.vo", "Model/TableSpec.vo", "Model/Cache.vo", "Model/Queries.vo"]
 TARGETS = ["Proofs/TablesFacts.vo", "Proofs/SortFacts.vo", "Proofs/PlaqTablesFacts.vo", "Proofs/CacheFacts.vo", "Proofs/QueriesFacts.vo",
-           "Proofs/CycListFacts.vo", "Proofs/CyclicFacts.vo", "Proofs/SweepShapeFacts.vo"]
+           "Proofs/CycListFacts.vo", "Proofs/CyclicFacts.vo", "Proofs/SweepShapeFacts.vo",
+           "Proofs/LatticeFacts.vo", "Proofs/PlaqListOk.vo"]
 LEVEL = "proof"
 TRUST = [
     "hand-written Gallina models coq/Model/Lattice.v (tables), coq/Model/Cache.v (cached_property state machine) and coq/Model/Queries.v (graph_utils helpers): modelled, not verified; tied to the code by the correspondence run (every table, every query, every access history, fresh and unpickled)",
